@@ -26,5 +26,7 @@ for pid in ALL:
         continue
     reason = NA.get(pid) or na_old.get(pid) or "not yet claimed: contracts for this property are not built yet"
     m["not_applicable"].append({"property_id": pid, "reason": reason})
+kf = json.load(open(os.path.join(V, "known_findings.json")))
+m["hooks"]["source_commits"] = [f["commit"] for f in kf["findings"] if f.get("status") == "fixed" and f.get("commit")]
 json.dump(m, open(os.path.join(V, "MANIFEST.json"), "w"), indent=1)
 print("claimed:", claimed)
